@@ -138,6 +138,9 @@ class Analyzer:
                         if isinstance(n, ast.FunctionDef) and n is not node and not any(n is f.node for _, f in funcs):
                             funcs.append((path, FuncInfo(n, None, path)))
         self.funcs = funcs
+        self.by_name = {}
+        for _p, f_ in funcs:
+            self.by_name.setdefault(f_.node.name, []).append(f_)
         changed = True
         rounds = 0
         while changed and rounds < 10:
@@ -200,6 +203,25 @@ class Analyzer:
                         if n.target.id not in fi.set_names:
                             fi.set_names.add(n.target.id)
                             changed = True
+                # parameters that receive a set-typed argument at some call site in the repo (matched by callee name)
+                for n in ast.walk(fi.node):
+                    if isinstance(n, ast.Call):
+                        cname = n.func.id if isinstance(n.func, ast.Name) else n.func.attr if isinstance(n.func, ast.Attribute) else None
+                        tgts = self.by_name.get(cname, ())
+                        if len(tgts) != 1:
+                            continue
+                        callee = tgts[0]
+                        ps = [x.arg for x in callee.node.args.posonlyargs + callee.node.args.args]
+                        if ps and ps[0] in ("self", "cls") and isinstance(n.func, ast.Attribute):
+                            ps = ps[1:]
+                        for a, pn in zip(n.args, ps):
+                            if self.is_set(a, fi) and pn not in callee.set_names:
+                                callee.set_names.add(pn)
+                                changed = True
+                        for kw in n.keywords:
+                            if kw.arg in ps and self.is_set(kw.value, fi) and kw.arg not in callee.set_names:
+                                callee.set_names.add(kw.arg)
+                                changed = True
                 rets = [r for r in ast.walk(fi.node) if isinstance(r, ast.Return) and r.value is not None]
                 own = [r for r in rets if self._owner(fi.node, r) is fi.node]
                 if own and all(self.is_set(r.value, fi) for r in own) or self._ann_is_set(fi.node.returns):
